@@ -474,6 +474,11 @@ def checkAStar (c : Case) (pen : Rat) (route : List (Rat × Rat)) : Option Strin
                      else return (some m, stats)
       | none, some m => return (some m, stats)
       | none, none => return (none, ("astar.path-equal", 1) :: stats)
+    -- a dearer route than a path of libavoid's own graph is a violation of the property itself
+    let implFull := fullCostPts g none rpts
+    let modelFull := fullCostPts g none mpts
+    if implFull > modelFull then
+      return (some s!"SPECFAIL dearer route than a path of libavoid's own orthogonal visibility graph: route() costs {ratToString implFull} (length + penalty*bends), the path {ptsStr mpts} of that graph costs {ratToString modelFull} (it is the route the A* search as coded in the unchanged makepath.cpp returns on this graph); route() = {ptsStr rpts}", stats)
     if implCost ≠ modelCost then
       return (some s!"A* search: as-coded cost of the C++ route {ratToString implCost} ≠ that of the model's route {ratToString modelCost} (search g {ratToString b.g}); C++ {ptsStr rpts}; model {ptsStr mpts}", stats)
     -- equal cost, different vertices: only acceptable where the C++ edge order is history dependent
@@ -491,12 +496,15 @@ def withAStar (c : Case) (r : CaseResult) : CaseResult :=
   | some route =>
     let (d, st) := checkAStar c pen route
     let r' := { r with stats := r.stats ++ st }
+    -- a message starting with "SPECFAIL " carries a concrete cheaper path: the property itself is violated
+    let mk := fun (msg : String) =>
+      if msg.startsWith "SPECFAIL " then Verdict.specfail (msg.drop 9).toString else Verdict.diverge msg
     match d, r.verdict with
-    | some msg, .ok => { r' with verdict := .diverge msg }
+    | some msg, .ok => { r' with verdict := mk msg }
     | some msg, .specfail m =>
       -- known-finding kinds (restricted end points) must not mask a model/implementation difference
       if m.startsWith "suboptimal route" || m.startsWith "route violates direction restriction" then
-        { r' with verdict := .diverge msg } else r'
+        { r' with verdict := mk msg } else r'
     | _, _ => r'
 
 open AdaptaVerif.Model.AStar in
